@@ -247,7 +247,10 @@ impl<'a> SubsetTable<'a> for &[BaseGlyph] {
             let record_num_layers = record.num_layers();
             s.embed(record_num_layers)?;
 
-            *num_layers += record_num_layers;
+            let Some(total) = num_layers.checked_add(record_num_layers) else {
+                return Err(s.set_err(SerializeErrorFlags::SERIALIZE_ERROR_OTHER));
+            };
+            *num_layers = total;
         }
         Ok(())
     }
